@@ -134,7 +134,7 @@ impl Prop for C15 {
             Leg {
                 name: "random",
                 kind: LegKind::Random {
-                    cases: tier.pick(800, 10_000),
+                    cases: tier.pick(10000, 80000),
                 },
                 workers: 16,
                 build: Build::Normal,
